@@ -6,7 +6,7 @@ import re
 import time
 
 VERIF = os.path.dirname(os.path.dirname(os.path.abspath(__file__)))
-EVIDENCE_DIR = os.path.join(VERIF, 'evidence')
+EVIDENCE_DIR = os.environ.get('HXSA_EVIDENCE_DIR') or os.path.join(VERIF, 'evidence')   # override: self-validation runs on scratch copies
 REPLAY_DIR = os.path.join(EVIDENCE_DIR, 'replay')
 KNOWN = os.path.join(VERIF, 'known_findings.json')
 
